@@ -486,10 +486,15 @@ class Session(BaseSession):
 
         These very common, as many clients execute commands like SELECT DATABASE() when connecting.
         """
-        # A SELECT without FROM reads no table, whatever other clauses it carries
-        if isinstance(q.expression, exp.Select) and not any(
-            q.expression.args.get(a)
-            for a in ("from_", "from", "joins", "laterals", "into")
+        # A SELECT without FROM reads no table, whatever other clauses it carries -
+        # unless a subquery does: SELECT (SELECT MAX(a) FROM t)
+        if (
+            isinstance(q.expression, exp.Select)
+            and not any(
+                q.expression.args.get(a)
+                for a in ("from_", "from", "joins", "laterals", "into")
+            )
+            and not q.expression.find(exp.Table)
         ):
             result = execute(q.expression)
             return result.rows, result.columns
